@@ -6,6 +6,7 @@ import PyodaProofs.C01Persian
 import PyodaProofs.C01PersianSimple
 import PyodaProofs.C01PersianArithmetic
 import PyodaProofs.C01IsoFast
+import PyodaProofs.C01WfCheck
 
 #print axioms Pyoda.C01.getYear_spec
 #print axioms Pyoda.C01.days_ymd_days
@@ -28,7 +29,9 @@ import PyodaProofs.C01IsoFast
 #print axioms Pyoda.C01.persian_wf
 #print axioms Pyoda.C01.persianSimple_wf
 #print axioms Pyoda.C01.persianArithmetic_wf
-#print axioms Pyoda.C01.persianAstronomical_wf_partial
+#print axioms Pyoda.C01.wfCheck_sound
+#print axioms Pyoda.C01.estOf_mono
+#print axioms Pyoda.C01.tdiv_mono
 #print axioms Pyoda.C01.gregorian_days_ymd_days
 #print axioms Pyoda.C01.gregorian_ymd_days_ymd
 #print axioms Pyoda.C01.gregorian_out_of_range_rejected
